@@ -179,6 +179,58 @@ def errors_attributable(corrupt: int, root_i: int) -> bool:
         return verdict(False)
 
 
+ONEOF_SDL = """
+input Pick @oneOf { a: String b: Int }
+input Wrap { pick: Pick! picks: [Pick!] }
+type Query { p(arg: Pick): String q(arg: Pick!): String r(arg: [Pick!]): String s(arg: [Pick]): String
+  t(arg: [Pick!]! = [{b: 1}]): String w(arg: Wrap): String }
+"""
+ONEOF_SCHEMA = build_schema(ONEOF_SDL)
+O_VTYPES = ["String", "String!", "Int", "Int!", "Pick", "Pick!", "[Pick!]"]
+O_VDEFS = ["", " = null", ' = "d"', " = 1", " = {b: 2}"]
+O_USES = [
+    "p(arg: {a: $v})", "q(arg: {a: $v})", "r(arg: [{a: $v}])", "s(arg: [{b: $v}])", "r(arg: {a: $v})", "s(arg: {a: $v})", "t(arg: [{a: $v}])",
+    "q(arg: $v)", "r(arg: [$v])", "s(arg: [$v])", "r(arg: $v)", "w(arg: {pick: {a: $v}})", "w(arg: {picks: [{b: $v}]})", "w(arg: {pick: $v})",
+    "q(arg: {a: $v, b: 1})", "p(arg: {b: $v})",
+]
+O_RUNTIME = ["absent", None, "s", 1, {"a": "x"}, {"a": None}, {"a": "x", "b": 1}, [{"b": 1}], {}]
+
+
+def _oneof_position(vt, vdef, use, rv) -> object:
+    text = "query Q($v: " + O_VTYPES[vt] + O_VDEFS[vdef] + ") { " + O_USES[use] + " }"
+    variables = {} if O_RUNTIME[rv] == "absent" else {"v": O_RUNTIME[rv]}
+    try:
+        doc = parse(text)
+        if validate(ONEOF_SCHEMA, doc):
+            return None
+        coerced = get_variable_values(ONEOF_SCHEMA, doc.definitions[0].variable_definitions or (), variables)
+        if isinstance(coerced, list):
+            return None
+        r = execute_sync(ONEOF_SCHEMA, doc, {}, variable_values=variables)
+    except Exception:
+        return False
+    if r.errors is None:
+        return True
+    # the run-time case the specification allows: a nullable variable that is null reaching a
+    # non-null position admitted because a default exists.  A OneOf member position is NOT such
+    # a position: there the variable itself must be non-null, default or not.
+    in_oneof_member = "{a: $v" in O_USES[use] or "{b: $v" in O_USES[use]
+    nullable = not O_VTYPES[vt].endswith("!")
+    value_is_null = O_RUNTIME[rv] is None or (O_RUNTIME[rv] == "absent" and O_VDEFS[vdef] in ("", " = null"))
+    return nullable and value_is_null and not in_oneof_member
+
+
+def oneof_positions(vt: int, vdef: int, rv: int, *, use: int) -> bool:
+    """Variables inside and around OneOf input objects at nullable, non-null, list-item and
+    nested positions: accepted by validation and variable coercion => error-free execution."""
+    vt = forked(vt, 0, len(O_VTYPES))
+    vdef = forked(vdef, 0, len(O_VDEFS))
+    rv = forked(rv, 0, len(O_RUNTIME))
+    r = concrete(_oneof_position, vt, vdef, use, rv)
+    assume(r is not None)
+    return verdict(r)
+
+
 WRAPS = ["T", "T!", "[T]", "[T]!", "[T!]", "[T!]!", "[[T]]", "[[T!]!]"]
 
 
@@ -239,6 +291,7 @@ BOUNDS = {
         "variable positions: 12 variable types x 6 defaults x 15 usage positions (arguments, list items, input object fields, directive argument) x 11 runtime values",
         "literals: 15 literals x 15 positions; selections: 12 fields x 13 spreads x 6 nested selections x 5 kinds of parent",
         "allowed_variable_usage vs IsVariableUsageAllowed: 8x8 wrapper stacks x variable default none/null/non-null x location default",
+        "OneOf: 7 variable types x 5 defaults x 16 uses (member of a OneOf literal at nullable / non-null / list-item / bare-object-at-list / nested positions, whole OneOf values, two-member literals) x 9 runtime values",
         "non-conforming data: 4 corruptions x 5 parents, every error path contains the corrupted field",
     ],
     "thorough": ["same (finite families, fully explored)"],
@@ -257,6 +310,8 @@ def obligations(tier):
         obs.append(dict(fn="literal_positions", cell=dict(pos=pos), budget_s=B))
     for root in range(len(ROOTS)):
         obs.append(dict(fn="selection_shapes", cell=dict(root=root), budget_s=B))
+    for use in range(len(O_USES)):
+        obs.append(dict(fn="oneof_positions", cell=dict(use=use), budget_s=B))
     obs.append(dict(fn="errors_attributable", cell={}, budget_s=B))
     obs.append(dict(fn="variable_usage_unit", cell={}, budget_s=B))
     return obs
@@ -271,6 +326,9 @@ def corpus():
     for root in range(len(ROOTS)):
         yield "selection_shapes", dict(root=root), dict(f1=0, sp=0, f2=0)
         yield "selection_shapes", dict(root=root), dict(f1=3, sp=2, f2=1)
+    for use in range(len(O_USES)):
+        yield "oneof_positions", dict(use=use), dict(vt=1, vdef=0, rv=2)
+        yield "oneof_positions", dict(use=use), dict(vt=5, vdef=0, rv=4)
     yield "errors_attributable", {}, dict(corrupt=0, root_i=0)
     yield "variable_usage_unit", {}, dict(vw=0, lw=1, var_default=True, var_default_null=False, loc_default=False)
     yield "variable_usage_unit", {}, dict(vw=0, lw=1, var_default=False, var_default_null=False, loc_default=False)
